@@ -180,3 +180,20 @@ def run_case(spec, j):
       j.sample = {'est': spec['est'], 'params': spec.get('params'),
                   'L_shape': L.shape, 'query_class': qc,
                   'first_triple': T[0], 'd(x,y),d(y,z),d(x,z),d(x,x)': dA[:4]}
+
+LEVEL_TEXT = ('Exploration by runtime monitoring: the metric axioms are '
+              'evaluated on the numbers returned by the real pair_distance / '
+              'pair_score / get_metric() of every one of the 17 estimators, '
+              'for thousands of hostile query triples (duplicates, 1-ulp '
+              'neighbours, 1e-100..1e100 magnitudes, far outliers, low-rank '
+              'transforms). Held on the executions listed in the evidence '
+              'file; no claim beyond them. Right level because the property '
+              'is a forall over inputs whose truth per execution is decided '
+              'exactly by reading the returned values.')
+LEVEL_NOTE = ('Trusts IEEE-754 arithmetic and that the harness-built datasets '
+              'are well formed as the quantifier demands; identities are '
+              'demanded bitwise, the triangle inequality up to a forward '
+              'error bound with >100x margin over the worst slack observed.')
+TECHNIQUE = ('runtime monitoring: online invariants on wrapped public '
+             'methods + axiom oracle over returned distances under seeded '
+             'hostile query workloads')
